@@ -51,6 +51,17 @@ def _part_a(ctx, n):
     import secsgem.hsms as H
 
     rng = ctx.rng
+    # a process that also speaks SECS-I: its blocks share base classes (and whatever those cache) with the HSMS codec
+    try:
+        import secsgem.secsi.header as SH
+        import secsgem.secsi.message as SM
+
+        for blen in (0, 1, 2, 3, 12, 100, 243, 244):
+            blk = SM.SecsIMessage(SH.SecsIHeader(rng.getrandbits(32), 0, 1, 1, 0, False, True), rng.randbytes(blen)).blocks[0]
+            SM.SecsIBlock.decode(blk.encode())
+            ctx.count("secsi_blocks_coded_before_hsms")
+    except Exception as exc:  # not this property's business, but worth knowing
+        ctx.count("secsi_block_codec_raised")
     stypes = [0, 1, 2, 3, 4, 5, 6, 7, 9]
     sys_b = [0, 1, 0x7FFFFFFF, 0x80000000, 0xFFFFFFFF, 0xFFFFFFFE, 0x100, 0xFFFF, 0x10000]
     for i in range(n):
@@ -61,7 +72,7 @@ def _part_a(ctx, n):
         stype = rng.choice(stypes)
         ptype = 0
         system = rng.choice(sys_b) if rng.random() < 0.5 else rng.getrandbits(32)
-        blen = rng.choice([0, 1, 2, 255, 256, 65535, 65536, rng.randint(0, 300)]) if i % 20 else rng.choice([70000, 1 << 20])
+        blen = rng.choice([0, 1, 2, 3, 12, 100, 243, 244, 255, 256, 65535, 65536, rng.randint(0, 300)]) if i % 20 else rng.choice([70000, 1 << 20])
         body = rng.randbytes(blen)
         ref = wire.hsms_frame(session, (0x80 if wbit else 0) | stream, function, ptype, stype, system, body)
         ctx.case(("A", ref[:14], blen, hash(body)))
@@ -105,7 +116,7 @@ class Session:
         self.ctx = ctx
         self.rig = Rig(active=False)
         self.ok = self.rig.connect_and_select()
-        self.sysgen = itertools.count(0x2000)
+        self.sysgen = gen.system_bytes(ctx.rng, 0x2000, p=0.02)
         self.seen_delivered = 0
         self.seen_frames = len(self.rig.pipe.frames())
 
